@@ -105,12 +105,12 @@ func verifDictionary(maxKeys, maxKeyLen, minKeyLen int, serialise bool) {
 }
 
 // keys of 1..2 bytes, probes of 1..3 bytes
-func verifC20Dict2()       { verifDictionary(2, 2, 1, true) }
-func verifC20Dict3()       { verifDictionary(3, 2, 1, true) }
-func verifC20DictInMem()   { verifDictionary(2, 2, 1, false) }
+func verifC20Dict2()     { verifDictionary(2, 2, 1, true) }
+func verifC20Dict3()     { verifDictionary(3, 2, 1, true) }
+func verifC20DictInMem() { verifDictionary(2, 2, 1, false) }
+
 // the empty key and the empty probe are part of the space
 func verifC20DictEmptyKey() { verifDictionary(2, 1, 0, true) }
-
 
 // Seek: positions the iterator on the smallest key >= probe (lower bound of a sorted map) and
 // reports whether that key equals the probe; from there Next walks the remaining keys in order.
@@ -176,6 +176,10 @@ func verifSeek(maxKeys, maxKeyLen int) {
 
 func verifC20Seek2() { verifSeek(2, 2) }
 func verifC20Seek3() { verifSeek(3, 2) }
+
+// thorough: longer keys (leaf suffixes of two bytes, deeper tries)
+func verifC20SeekLong() { verifSeek(2, 3) }
+func verifC20DictLong() { verifDictionary(2, 3, 1, true) }
 
 func verifC20Reach() {
 	k1 := verifSymBytes("key", 2)
